@@ -204,6 +204,9 @@ def find_pickleable_exception(
     """
     exc_args = getattr(exc, "args", [])
     for supercls in _itermro(exc.__class__, UNWANTED_BASE_CLASSES):
+        if not issubclass(supercls, BaseException):
+            # Mixins of an exception class are not exceptions.
+            continue
         try:
             superexc = supercls(*exc_args)
             coder.loads(coder.dumps(superexc))
